@@ -195,9 +195,7 @@ def step (m : M) (t : List String) : M × String :=
   | ["oracle", name, detOff, dur, fs, fe] =>
     match m.st, parseName? name, parseRat? detOff, parseNat? dur, parseNat? fs, parseNat? fe with
     | some s, some n, some d, some du, some fs, some fe =>
-      let s' := { s with chans := s.chans.map fun c =>
-        if c.name == n then { c with ddOracle := ((d, du), (fs, fe)) :: c.ddOracle } else c }
-      ({ m with st := some s' }, "ok")
+      ({ m with st := some (s.injectOracle n d du fs fe) }, "ok")
     | _, _, _, _, _, _ => (m, "bad oracle")
   | "op" :: rest =>
     match m.st, parseOp? rest with
